@@ -31,12 +31,12 @@ def spell(rnd, a, b):
     return f'{an}{ws}{"+" if b >= 0 else "-"}{ws2}{abs(b)}'
 
 
-def sibling_doc(rnd):
+def sibling_doc(rnd, force_mixed=False, modes=None):
     """A parent with 0-10 element children of 1-3 types, with or without interleaved non-element nodes."""
     n = rnd.choice([0, 1, 1, 2, 2, 3, 4, 5, 6, 8, 10])
     style = rnd.choice(['tight', 'spaced', 'mixed', 'tight'])
     kids = []
-    mixed_case = rnd.random() < 0.3
+    mixed_case = force_mixed or rnd.random() < 0.3
     for i in range(n):
         if style == 'spaced' or (style == 'mixed' and rnd.random() < 0.5):
             kids.append(rnd.choice([('t', '\n'), ('c', 'x'), ('t', 'txt'), ('t', ' ')]))
@@ -48,6 +48,8 @@ def sibling_doc(rnd):
     if style != 'tight' and rnd.random() < 0.5:
         kids.append(('t', '\n'))
     mode = rnd.choice(['api', 'html.parser', 'lxml', 'html5lib', 'frag', 'toplevel', 'xml', 'xmlns', 'xmlns'])
+    if modes:
+        mode = rnd.choice(modes)
     if mode == 'xmlns':
         # same-named siblings in different namespaces are different element types
         kids = [(k[0], k[1], dict(k[2], xmlns=rnd.choice(['urn:one', 'urn:two', 'urn:one'])) if rnd.random() < 0.7 else k[2], k[3])
